@@ -204,7 +204,7 @@ class Ctx:
 
     def violation(self, what, replay):
         """Record a violation exhibited by real code. replay: JSON-serialisable object reproducing it."""
-        rdir = os.path.join(VERIF, "replays")
+        rdir = os.path.join(VERIF, "replays") if not os.environ.get("VERIF_NOEVIDENCE") else os.path.join(tempfile.gettempdir(), "verif-seedtest-replays")
         os.makedirs(rdir, exist_ok=True)
         obj = {"property": self.pid, "what": what, "seed": self.seed, "tier": self.tier}
         obj.update(replay)
@@ -248,9 +248,10 @@ class Ctx:
         ev = {"property_id": self.pid, "tier": self.tier, "seed": self.seed, "level": self.level,
               "coverage": cov, "assumptions": self.assumptions, "wall_s": round(wall, 2),
               "violations": len(self.violations), "known_findings_reported": self.known}
-        os.makedirs(os.path.join(VERIF, "evidence"), exist_ok=True)
-        with open(os.path.join(VERIF, "evidence", self.pid + ".json"), "w") as f:
-            json.dump(ev, f, indent=1, default=str)
+        if not os.environ.get("VERIF_NOEVIDENCE"):      # (set only by tools/seedtest.py, which runs checks on patched copies)
+            os.makedirs(os.path.join(VERIF, "evidence"), exist_ok=True)
+            with open(os.path.join(VERIF, "evidence", self.pid + ".json"), "w") as f:
+                json.dump(ev, f, indent=1, default=str)
         print("%s %s seed=%d: evaluations=%d distinct_nontrivial=%d tlc_states=%d traces=%d violations=%d wall=%.1fs" % (
             self.pid, self.tier, self.seed, self.evaluations, len(self.distinct), self.states, self.traces,
             len(self.violations), wall))
